@@ -20,6 +20,8 @@
 //                          compared only where both libraries accept it.
 //   visit / visit_with_index over variant lists of different sizes ((2,3) (3,2) (2,3,2) (1,4) (4,1) (3,4)), every index tuple,
 //                          lvalue / const / rvalue variants, void and reference-returning visitors (visit<R> does not exist);
+//   a class publicly derived from variant driven through visit / visit_with_index / get_if / holds_alternative / unchecked_get /
+//                          operator[] / assignment / emplace / swap (std::visit supports derived variants: P2162);
 //   further configurations: variant<NonTriv,int,NonTriv,int> (duplicated alternative types, index-based operations only),
 //                          converting construction / assignment from non-arithmetic sources into variants holding bool.
 // Exclusion tags understood by the generator (for known findings, none recorded at the time of writing):
@@ -1163,12 +1165,131 @@ struct VisitMix {
 };
 long VisitMix::g_sink = 0;
 
+// ================================================================== a class publicly derived from variant
+// struct Shape : etl::variant<...> (the "strong typedef with helpers" pattern).  The whole free-function surface must treat
+// it as the variant it is: visit / visit_with_index dispatch on the active alternative of the base (libstdc++ implements
+// P2162 for std::visit in C++20 mode), get_if / holds_alternative / unchecked_get, relational operators, swap.  The visitor
+// has a catch-all branch that records "received something that is not an alternative".
+// Stateless: a = state of the first object, b = state of the second, c = form.
+struct DerivedVar {
+    using T0 = Tag<9, 0>;
+    using T1 = Tag<9, 1>;
+    using T2 = Tag<9, 2>;
+    struct EShape : etl::variant<T0, T1, T2> {
+        using variant::variant;
+        [[nodiscard]] auto is_first() const -> bool { return index() == 0; }
+    };
+    struct SShape : std::variant<T0, T1, T2> {
+        using variant::variant;
+        [[nodiscard]] auto is_first() const -> bool { return index() == 0; }
+    };
+    using EPlain = etl::variant<Tag<8, 0>, Tag<8, 1>>;
+    using SPlain = std::variant<Tag<8, 0>, Tag<8, 1>>;
+    static constexpr std::uint32_t NSTATE = 3, NFORM = 9;
+
+    struct Rec { // per argument: family, index, value of the alternative received; 999 if the argument is no alternative at all
+        template <typename... Ts>
+        auto operator()(Ts const&... xs) const -> long
+        {
+            long r   = 0;
+            auto one = [&](auto const& x) {
+                if constexpr (requires { x.fam; x.idx; x.v; }) {
+                    r = r * 1000 + x.fam * 100 + x.idx * 10 + x.v;
+                } else {
+                    r = r * 1000 + 999;
+                }
+            };
+            (one(xs), ...);
+            return r;
+        }
+    };
+    template <typename Shape>
+    static auto make(std::uint32_t st) -> Shape
+    {
+        switch (st % NSTATE) {
+        case 0: return Shape(T0{1});
+        case 1: return Shape(T1{2});
+        default: return Shape(T2{3});
+        }
+    }
+    static auto run(OpsCase const& k, int stats) -> std::string
+    {
+        for (auto const& op : k.ops) {
+            auto e1 = make<EShape>(op.a), e2 = make<EShape>(op.b);
+            auto s1 = make<SShape>(op.a), s2 = make<SShape>(op.b);
+            EPlain ep = (op.b & 1U) != 0 ? EPlain(Tag<8, 1>{4}) : EPlain(Tag<8, 0>{5});
+            SPlain sp = (op.b & 1U) != 0 ? SPlain(Tag<8, 1>{4}) : SPlain(Tag<8, 0>{5});
+            std::string te, ts, what;
+            auto num = [](long x) { return std::to_string(x); };
+            switch (op.c % NFORM) {
+            case 0: what = "visit(f, derived)", te = num(etl::visit(Rec{}, e1)), ts = num(std::visit(Rec{}, s1)); break;
+            case 1: what = "visit(f, const derived)", te = num(etl::visit(Rec{}, std::as_const(e1))), ts = num(std::visit(Rec{}, std::as_const(s1))); break;
+            case 2: what = "visit(f, rvalue derived)", te = num(etl::visit(Rec{}, std::move(e1))), ts = num(std::visit(Rec{}, std::move(s1))); break; // Rec takes const&
+            case 3: what = "visit(f, derived, derived)", te = num(etl::visit(Rec{}, e1, e2)), ts = num(std::visit(Rec{}, s1, s2)); break;
+            case 4:
+                what = "visit(f, derived, variant) / (variant, derived)";
+                te   = num(etl::visit(Rec{}, e1, ep)) + "/" + num(etl::visit(Rec{}, ep, e1));
+                ts   = num(std::visit(Rec{}, s1, sp)) + "/" + num(std::visit(Rec{}, sp, s1));
+                break;
+            case 5: {
+                what = "visit_with_index(f, derived[, derived])";
+                te   = num(etl::visit_with_index([](auto p) { return static_cast<long>(p.index.value) * 1000000 + Rec{}(p.value()); }, e1)) + "/"
+                   + num(etl::visit_with_index([](auto p, auto q) { return static_cast<long>(p.index.value * 10 + q.index.value) * 1000000 + Rec{}(p.value(), q.value()); }, std::as_const(e1), e2));
+                ts = num(static_cast<long>(s1.index()) * 1000000 + std::visit(Rec{}, s1)) + "/" + num(static_cast<long>(s1.index() * 10 + s2.index()) * 1000000 + std::visit(Rec{}, s1, s2));
+                break;
+            }
+            case 6: {
+                what = "index / holds_alternative / get_if / unchecked_get on a derived object";
+                te   = num(static_cast<long>(e1.index())) + (e1.is_first() ? "f" : "-") + (etl::holds_alternative<T0>(e1) ? "1" : "0") + (etl::holds_alternative<T1>(e1) ? "1" : "0") + (etl::holds_alternative<T2>(e1) ? "1" : "0")
+                   + (etl::get_if<0>(&e1) != nullptr ? "p" : "n") + (etl::get_if<1>(&std::as_const(e1)) != nullptr ? "p" : "n") + (etl::get_if<T2>(&e1) != nullptr ? "p" : "n");
+                ts = num(static_cast<long>(s1.index())) + (s1.is_first() ? "f" : "-") + (std::holds_alternative<T0>(s1) ? "1" : "0") + (std::holds_alternative<T1>(s1) ? "1" : "0") + (std::holds_alternative<T2>(s1) ? "1" : "0")
+                   + (std::get_if<0>(&s1) != nullptr ? "p" : "n") + (std::get_if<1>(&std::as_const(s1)) != nullptr ? "p" : "n") + (std::get_if<T2>(&s1) != nullptr ? "p" : "n");
+                switch (op.a % NSTATE) {
+                case 0: te += num(etl::unchecked_get<0>(e1).v), ts += num(std::get<0>(s1).v); break;
+                case 1: te += num(etl::unchecked_get<1>(std::as_const(e1)).v), ts += num(std::get<1>(std::as_const(s1)).v); break;
+                default: te += num(e1[etl::index_v<2>].v), ts += num(std::get<2>(s1).v); break;
+                }
+                break;
+            }
+            case 7: {
+                what = "assignment / emplace / swap through the inherited interface, then visit";
+                e1   = T2{7}, s1 = T2{7};
+                e2.emplace<0>(T0{8}), s2.emplace<0>(T0{8});
+                etl::swap(e1, e2);
+                std::swap(s1, s2);
+                EShape e3(e1);
+                SShape s3(s1);
+                e3 = e2, s3 = s2;
+                te = num(etl::visit(Rec{}, e1, e2)) + "/" + num(etl::visit(Rec{}, e3));
+                ts = num(std::visit(Rec{}, s1, s2)) + "/" + num(std::visit(Rec{}, s3));
+                break;
+            }
+            default: {
+                // distinct tag types are not comparable: compare the positions only (index order is all that matters here)
+                what = "visit after move construction of a derived object";
+                EShape e3(std::move(e1));
+                SShape s3(std::move(s1));
+                te = num(etl::visit(Rec{}, e3)) + "/" + num(static_cast<long>(e3.index()));
+                ts = num(std::visit(Rec{}, s3)) + "/" + num(static_cast<long>(s3.index()));
+                break;
+            }
+            }
+            if (stats > 0) { vf::nontrivial_count(); }
+            if (te != ts) {
+                return std::string(what) + " with the derived objects holding alternatives " + std::to_string(op.a % NSTATE) + " and " + std::to_string(op.b % NSTATE) + ": etl " + te + ", std " + ts
+                     + " (3 digits per argument: family, index, value; 999 = the visitor did not receive an alternative)";
+            }
+        }
+        return "";
+    }
+};
+
 // ------------------------------------------------------------------ configuration table
 struct Config {
     char const* name;
     std::string (*run)(OpsCase const&, int);
     std::size_t nalt;
-    int kind{0}; // 0 history configuration of Cfg<...>, 1 stateless NaN comparisons, 2 duplicated alternatives (Dup), 3 stateless source selection (Sel), 4 stateless multi-variant visit (VisitMix)
+    int kind{0}; // 0 history configuration of Cfg<...>, 1 stateless NaN comparisons, 2 duplicated alternatives (Dup), 3 stateless source selection (Sel), 4 stateless multi-variant visit (VisitMix), 5 stateless derived-from-variant surface (DerivedVar)
 };
 // One source, several executables: -DC07_ONLY=<i> builds only configuration i (the registry lists one harness per
 // configuration so that they compile in parallel); configuration ids in case strings are the same in every build.
@@ -1207,6 +1328,11 @@ struct Config {
 #else
     #define C07_RUN6 nullptr
 #endif
+#if !defined(C07_ONLY) || C07_ONLY == 1
+    #define C07_RUN7 &DerivedVar::run
+#else
+    #define C07_RUN7 nullptr
+#endif
 Config const configs[] = {
     {"variant<int,char>", C07_RUN0, 2},
     {"variant<int,NonTriv,Small>", C07_RUN1, 3},
@@ -1215,6 +1341,7 @@ Config const configs[] = {
     {"variant<NonTriv,int,NonTriv,int>", C07_RUN4, 4, 2},
     {"variant converting construction / assignment from non-arithmetic sources", C07_RUN5, 0, 3},
     {"visit over variants of different sizes", C07_RUN6, 0, 4},
+    {"class publicly derived from variant", C07_RUN7, 0, 5},
 };
 constexpr std::uint32_t nconfigs = sizeof(configs) / sizeof(configs[0]);
 
@@ -1337,6 +1464,24 @@ void vf_run(vf::Ctx& c)
                 }
                 continue;
             }
+            if (configs[ci].kind == 5) {
+                // every (state, state, form) of the derived-from-variant surface
+                for (std::uint32_t a = 0; a < DerivedVar::NSTATE; ++a) {
+                    for (std::uint32_t b = 0; b < DerivedVar::NSTATE; ++b) {
+                        for (std::uint32_t f = 0; f < DerivedVar::NFORM; ++f) {
+                            if (!c.mine(n++)) { continue; }
+                            OpsCase k;
+                            k.cfg = ci;
+                            k.ops.push_back(RawOp{Q_VISIT1, a, b, f});
+                            vf::Flight<OpsCase> fl("enum_derived_variant", k);
+                            vf::eval("enum_derived_variant");
+                            auto d = run_case(k, 1);
+                            if (!d.empty()) { vf::mismatch("enum_derived_variant", k, d); }
+                        }
+                    }
+                }
+                continue;
+            }
             if (configs[ci].kind == 2) {
                 // duplicated alternatives: every (state A, state B) x op x query over the index-based operations
                 std::vector<RawOp> ops, queries;
@@ -1439,7 +1584,7 @@ void vf_run(vf::Ctx& c)
     // E1: random histories of <= 25 ops, every configuration
     int per_cfg = (c.thorough() ? 50000 : 3000) / std::max(1, c.nshards) + 1; // per type over all shards: quick 3k, thorough 50k
     for (std::uint32_t ci = 0; ci < nconfigs; ++ci) {
-        if (configs[ci].run == nullptr || configs[ci].kind == 1 || configs[ci].kind == 3 || configs[ci].kind == 4) { continue; }
+        if (configs[ci].run == nullptr || configs[ci].kind == 1 || configs[ci].kind == 3 || configs[ci].kind == 4 || configs[ci].kind == 5) { continue; }
         auto gen = rc::gen::map(vf::gen_history(1, configs[ci].kind == 2 ? std::uint32_t{D_NCODES} : std::uint32_t{NCODES}, 25), [ci](OpsCase k) {
             k.cfg = ci;
             return k;
